@@ -4,6 +4,7 @@ Property theorems only; helper lemmas live in BemppVerif/Lemmas/FmmSum.lean, Fmm
 -/
 import BemppVerif.Model.Fmm
 import BemppVerif.Lemmas.FmmPipeline
+import Mathlib.Tactic.IntervalCases
 
 namespace BemppVerif.C17
 open BemppVerif.Model.Fmm BemppVerif.Lemmas.FmmSum BemppVerif.Lemmas.FmmPipeline
@@ -148,5 +149,250 @@ theorem fmm_matvec_eq_dense (T S : Space R) (npts : Nat) (w : Nat → R) (K : Na
   apply sumOver_congr
   intro j _
   rw [sumOver_ite_const]
+
+/-- The statement at the level of the operator: coefficient vectors of a barycentric space pass through
+its dof transformation first (`pre`), the result through the transposed one (`post`, any function of the
+grid-dof result), and `singular_part @ x` (`sing`, the same sparse matrix in both modes) is added. -/
+theorem fmm_matvec_eq_dense_dof (T S : Space R) (npts : Nat) (w : Nat → R) (K : Nat → Nat → R)
+    (nbrs : Nat → List Nat) (adjacent : Nat → Nat → Bool)
+    (pre : (Nat → R) → Nat → R) (post : (Nat → R) → Nat → R) (sing : (Nat → R) → Nat → R) (x : Nat → R)
+    (hT : ∀ τ ∈ T.support, τ < T.nElems)
+    (hS : S.support.Nodup) (hSb : ∀ σ ∈ S.support, σ < S.nElems)
+    (near_field_is_adjacent_pairs : NearFieldIsAdjacentPairs nbrs adjacent T.nElems S.nElems) :
+    post (fun r => fmmMatvec T S npts w K nbrs (pre x) r + sing (pre x) r)
+      = post (fun r => denseRegularMatvec T S npts w K adjacent (pre x) r + sing (pre x) r) := by
+  congr 1
+  funext r
+  rw [fmm_matvec_eq_dense T S npts w K nbrs adjacent (pre x) r hT hS hSb near_field_is_adjacent_pairs]
+
+/-- Two different grids: no near-field correction, the dense assembler skips nothing. -/
+theorem fmm_matvec_eq_dense_two_grids (T S : Space R) (npts : Nat) (w : Nat → R) (K : Nat → Nat → R)
+    (x : Nat → R) (r : Nat) (hT : ∀ τ ∈ T.support, τ < T.nElems)
+    (hS : S.support.Nodup) (hSb : ∀ σ ∈ S.support, σ < S.nElems) :
+    fmmMatvec T S npts w K (fun _ => []) x r = denseRegularMatvec T S npts w K (fun _ _ => false) x r :=
+  fmm_matvec_eq_dense T S npts w K _ _ x r hT hS hSb
+    ⟨fun _ _ => List.nodup_nil, fun _ _ _ h => by simp at h, fun _ _ _ _ => by simp⟩
+
+/-- Potential operators with `assembler="fmm"`: the exact evaluator at arbitrary target points `T`
+(no near-field correction) applied to the source map is the dense potential sum over the support elements,
+shape functions and quadrature points. -/
+theorem fmm_potential_eq_dense (S : Space R) (npts : Nat) (w : Nat → R) (K : Nat → Nat → R) (x : Nat → R)
+    (T : Nat) (hS : S.support.Nodup) (hSb : ∀ σ ∈ S.support, σ < S.nElems) :
+    evalAll K (npts * S.nElems) (spaceToPoints S npts w x) T
+      = sumOver S.support fun σ => sumOver (List.range npts) fun q => K T (npts * σ + q) *
+          sumOver (List.range S.nshape) fun i =>
+            S.basis σ i q * w q * S.ie σ * (S.mult σ i * x (S.l2g σ i)) := by
+  unfold evalAll
+  rw [sumOver_range_mul, sumOver_eq_range_ite S.support S.nElems hS hSb]
+  apply sumOver_congr
+  intro σ _
+  by_cases hs : σ ∈ S.support
+  · rw [if_pos hs]
+    apply sumOver_congr
+    intro q hq
+    rw [spaceToPoints_at S npts w x hS σ q (List.mem_range.mp hq), if_pos hs]
+  · rw [if_neg hs]
+    refine (sumOver_congr _ _ (fun _ => (0 : R)) ?_).trans (sumOver_zero _)
+    intro q hq
+    rw [spaceToPoints_at S npts w x hS σ q (List.mem_range.mp hq), if_neg hs, mul_zero]
+
+/-! ### The sparse space-to-points maps -/
+
+/-- **Point-map indexing, code as it stands, whole-grid spaces** (`support_elements = 0..n-1`, which
+includes barycentric spaces on the refined grid).  `map_space_to_points_impl` succeeds; its triplets are,
+in array order, `row = npts*e+q`, `column = nshape*pos+i`, `value = basis·weight·integration element`;
+composed with `map_to_localised_space` it is the direct source map (rows `npts*e+q`, columns
+`local2global[e,i]` with the multipliers), and the transposed composition is the direct target map.
+
+FULL STATEMENT (false for the unchanged code, see `point_map_indexing_counterexample`; true for the code
+patched by findings/proposed_c17.diff, see `point_map_indexing_patched`): the same for every support. -/
+theorem point_map_indexing_partial (S : Space R) (npts : Nat) (w : Nat → R)
+    (hwhole : S.support = List.range S.nElems) :
+    pointMapImpl false S npts w
+        = some (S.support.zipIdx.flatMap fun p => elemTriplets S npts w p.2 p.1) ∧
+    (∀ x, mapToPointsImpl false S npts w x = some (spaceToPoints S npts w x)) ∧
+    (∀ y, mapToPointsTImpl false S npts w y = some (pointsToSpace S npts w y)) := by
+  have hok : pointMapImpl false S npts w
+      = some (S.support.zipIdx.flatMap fun p => elemTriplets S npts w p.2 p.1) := by
+    apply pointMapImpl_ok
+    intro p hp
+    have hlen := (List.mem_zipIdx (x := p.1) (i := p.2) hp).2.1
+    have heq : p.1 = p.2 := by
+      rw [hwhole] at hp
+      exact zipIdx_range_eq S.nElems p hp
+    simp only [slot, Bool.false_eq_true, if_false]
+    omega
+  refine ⟨hok, ?_, ?_⟩
+  · intro x
+    unfold mapToPointsImpl
+    rw [hok, Option.map_some]
+    congr 1
+    funext P
+    exact composed_eq S npts w x P
+  · intro y
+    unfold mapToPointsTImpl
+    rw [hok, Option.map_some]
+    congr 1
+    funext r
+    exact composedT_eq S npts w y r
+
+/-- **Point-map indexing, patched code** (array blocks addressed by the position in `support_elements`):
+for EVERY support (segments, arbitrary `support_elements`) the implementation succeeds and the composed
+maps are the direct source / target maps. -/
+theorem point_map_indexing_patched (S : Space R) (npts : Nat) (w : Nat → R) :
+    pointMapImpl true S npts w
+        = some (S.support.zipIdx.flatMap fun p => elemTriplets S npts w p.2 p.1) ∧
+    (∀ x, mapToPointsImpl true S npts w x = some (spaceToPoints S npts w x)) ∧
+    (∀ y, mapToPointsTImpl true S npts w y = some (pointsToSpace S npts w y)) := by
+  have hok : pointMapImpl true S npts w
+      = some (S.support.zipIdx.flatMap fun p => elemTriplets S npts w p.2 p.1) := by
+    apply pointMapImpl_ok
+    intro p hp
+    have hlen := (List.mem_zipIdx (x := p.1) (i := p.2) hp).2.1
+    simp only [slot, if_true]
+    omega
+  refine ⟨hok, ?_, ?_⟩
+  · intro x
+    unfold mapToPointsImpl
+    rw [hok, Option.map_some]
+    congr 1
+    funext P
+    exact composed_eq S npts w x P
+  · intro y
+    unfold mapToPointsTImpl
+    rw [hok, Option.map_some]
+    congr 1
+    funext r
+    exact composedT_eq S npts w y r
+
+/-- witness: a grid with two elements, a one-function space supported on element 1 only -/
+def segmentWitness : Space Int :=
+  { nElems := 2, support := [1], nshape := 1, l2g := fun _ _ => 0, mult := fun _ _ => 1,
+    basis := fun _ _ _ => 1, ie := fun _ => 1 }
+
+/-- **The unchanged code fails on segment spaces**: on the witness the implementation raises (the block of
+element 1 lies outside arrays sized for one support element) although the source map it should produce
+is not zero (coefficient 1 ↦ value 1 at point 1), and the patched variant produces exactly that map. -/
+theorem point_map_indexing_counterexample :
+    pointMapImpl false segmentWitness 1 (fun _ => 1) = none ∧
+    spaceToPoints segmentWitness 1 (fun _ => 1) (fun _ => 1) 1 = 1 ∧
+    pointMapImpl true segmentWitness 1 (fun _ => 1) = some [⟨1, 0, 1⟩] := by
+  decide
+
+/-- **Transform index arrays** (`compute_p1_curl_transformation_impl`, `compute_rwg_basis_transform_impl`,
+`compute_rwg_div_transform_impl`): on whole-grid spaces the rows the code writes (`npts*position+q`) are the
+point rows of the element (`npts*element+q`).
+
+FULL STATEMENT (false for the unchanged code, `transform_indexing_counterexample`): for every support. -/
+theorem transform_indexing_partial (n npts : Nat) :
+    transformIdxImpl false (List.range n) npts = transformIdxImpl true (List.range n) npts := by
+  unfold transformIdxImpl
+  apply flatMap_congr'
+  intro p hp
+  have := zipIdx_range_eq n p hp
+  simp only [this, ite_self]
+
+/-- on a segment the code puts the values of element 1 on the point rows of element 0 (silently) -/
+theorem transform_indexing_counterexample :
+    transformIdxImpl false [1] 2 = [(0, 0), (1, 0), (0, 1), (1, 1), (0, 2), (1, 2)] ∧
+    transformIdxImpl true [1] 2 = [(2, 0), (3, 0), (2, 1), (3, 1), (2, 2), (3, 2)] := by
+  decide
+
+/-! ### Gradient-based operators -/
+
+/-- **Double layer from the 4-component evaluator output.**  `g k` is component `1+k` of the evaluator
+kernel (k-th component of the gradient of `G` with respect to the TARGET point), `gy k = -g k` the gradient
+with respect to the source point (translation-invariant kernel).  The code's
+`-(Σ_k evaluate(n_k·v)[:, 1+k])` is the corrected evaluator for the double-layer kernel
+`Σ_k n_k(y) ∂G/∂y_k` — so `fmm_matvec_eq_dense` applies with that kernel.  A wrong sign, a wrong column or a
+target normal in place of the source normal breaks the identity. -/
+theorem dl_from_gradient (g gy : Nat → Nat → Nat → R) (n : Nat → Nat → R) (npts nSrcElems : Nat)
+    (nbrs : Nat → List Nat) (v : Nat → R) (T : Nat) (hg : ∀ k T P, gy k T P = - g k T P) :
+    dlFromGradient g n npts nSrcElems nbrs v T
+      = corrected (fun T P => sumOver (List.range 3) fun k => n k P * gy k T P) npts nSrcElems nbrs v T := by
+  unfold dlFromGradient corrected
+  rw [evalAll_dl g gy n _ v T hg, nearField_dl g gy n npts nbrs v T hg, sumOver_sub]
+  ring
+
+/-- **Adjoint double layer**: `Σ_k evaluate(v)[:, 1+k] · n_k(x)` is the corrected evaluator for the kernel
+`Σ_k n_k(x) ∂G/∂x_k` (target normal, target gradient, no sign change). -/
+theorem adl_from_gradient (g : Nat → Nat → Nat → R) (nT : Nat → Nat → R) (npts nSrcElems : Nat)
+    (nbrs : Nat → List Nat) (v : Nat → R) (T : Nat) :
+    adlFromGradient g nT npts nSrcElems nbrs v T
+      = corrected (fun T P => sumOver (List.range 3) fun k => nT k T * g k T P) npts nSrcElems nbrs v T := by
+  unfold adlFromGradient corrected
+  rw [evalAll_adl g nT _ v T, nearField_adl g nT npts nbrs v T, ← sumOver_sub]
+  apply sumOver_congr
+  intro k _
+  ring
+
+/-- FMM double layer matvec = dense regular matvec with the double-layer kernel. -/
+theorem fmm_dl_eq_dense (T S : Space R) (npts : Nat) (w : Nat → R) (g gy : Nat → Nat → Nat → R)
+    (n : Nat → Nat → R) (nbrs : Nat → List Nat) (adjacent : Nat → Nat → Bool) (x : Nat → R) (r : Nat)
+    (hg : ∀ k T P, gy k T P = - g k T P)
+    (hT : ∀ τ ∈ T.support, τ < T.nElems) (hS : S.support.Nodup) (hSb : ∀ σ ∈ S.support, σ < S.nElems)
+    (near_field_is_adjacent_pairs : NearFieldIsAdjacentPairs nbrs adjacent T.nElems S.nElems) :
+    pointsToSpace T npts w (dlFromGradient g n npts S.nElems nbrs (spaceToPoints S npts w x)) r
+      = denseRegularMatvec T S npts w (fun T P => sumOver (List.range 3) fun k => n k P * gy k T P)
+          adjacent x r := by
+  rw [← fmm_matvec_eq_dense T S npts w _ nbrs adjacent x r hT hS hSb near_field_is_adjacent_pairs]
+  unfold fmmMatvec
+  congr 1
+  funext P
+  exact dl_from_gradient g gy n npts S.nElems nbrs _ P hg
+
+/-- FMM adjoint double layer matvec = dense regular matvec with the adjoint double-layer kernel. -/
+theorem fmm_adl_eq_dense (T S : Space R) (npts : Nat) (w : Nat → R) (g : Nat → Nat → Nat → R)
+    (nT : Nat → Nat → R) (nbrs : Nat → List Nat) (adjacent : Nat → Nat → Bool) (x : Nat → R) (r : Nat)
+    (hT : ∀ τ ∈ T.support, τ < T.nElems) (hS : S.support.Nodup) (hSb : ∀ σ ∈ S.support, σ < S.nElems)
+    (near_field_is_adjacent_pairs : NearFieldIsAdjacentPairs nbrs adjacent T.nElems S.nElems) :
+    pointsToSpace T npts w (adlFromGradient g nT npts S.nElems nbrs (spaceToPoints S npts w x)) r
+      = denseRegularMatvec T S npts w (fun T P => sumOver (List.range 3) fun k => nT k T * g k T P)
+          adjacent x r := by
+  rw [← fmm_matvec_eq_dense T S npts w _ nbrs adjacent x r hT hS hSb near_field_is_adjacent_pairs]
+  unfold fmmMatvec
+  congr 1
+  funext P
+  exact adl_from_gradient g nT npts S.nElems nbrs _ P
+
+/-! ### Non-vacuity -/
+
+/-- two elements sharing dof 1 (a P1-like space with 2 local functions), 2 quadrature points -/
+def exSpace : Space Int :=
+  { nElems := 3, support := [0, 2], nshape := 2,
+    l2g := fun e i => if e = 0 then i else if i = 0 then 1 else 2,
+    mult := fun e _ => if e = 2 then -1 else 1,
+    basis := fun e i q => (e + 1 : Int) * (i + 2) + q,
+    ie := fun e => (e : Int) + 3 }
+
+def exNbrs : Nat → List Nat := fun τ => if τ = 0 then [0, 1] else if τ = 1 then [0, 1, 2] else [1, 2]
+def exAdj : Nat → Nat → Bool := fun τ σ => decide (τ = σ ∨ τ = 1 ∨ σ = 1)
+def exK : Nat → Nat → Int := fun T P => (T : Int) * 7 - P * P + 1
+def exX : Nat → Int := fun c => (c : Int) * c - 5
+
+/-- the hypotheses of `fmm_matvec_eq_dense` are satisfiable on a segment space (support {0,2} of 3
+elements) with a non-trivial adjacency, and both sides are a non-zero number there -/
+example : (∀ τ ∈ exSpace.support, τ < exSpace.nElems) ∧ exSpace.support.Nodup ∧
+    NearFieldIsAdjacentPairs exNbrs exAdj 3 3 ∧
+    fmmMatvec exSpace exSpace 2 (fun q => (q : Int) + 1) exK exNbrs exX 1 = 544605 ∧
+    denseRegularMatvec exSpace exSpace 2 (fun q => (q : Int) + 1) exK exAdj exX 1 = 544605 := by
+  refine ⟨by decide, by decide, ⟨?_, ?_, ?_⟩, by decide, by decide⟩
+  · intro τ h; interval_cases τ <;> decide
+  · intro τ h; interval_cases τ <;> decide
+  · intro τ h σ h'; interval_cases τ <;> interval_cases σ <;> decide
+
+/-- without the self-pairs in the near-field list the identity fails on the same data (the hypothesis
+`near_field_is_adjacent_pairs` is what excludes this) -/
+example : fmmMatvec exSpace exSpace 2 (fun q => (q : Int) + 1) exK (fun τ => (exNbrs τ).filter (· ≠ τ)) exX 1
+    ≠ denseRegularMatvec exSpace exSpace 2 (fun q => (q : Int) + 1) exK exAdj exX 1 := by
+  decide
+
+/-- `dl_from_gradient`: the hypothesis `gy = -g` is satisfiable with a non-zero gradient, and the sign
+matters: with `gy = g` the two sides differ -/
+example : (∀ k T P, (fun k T P => -((k : Int) + T - P)) k T P = - (fun k T P => (k : Int) + T - P) k T P) ∧
+    dlFromGradient (fun k T P => (k : Int) + T - P) (fun k P => (k : Int) * P + 1) 2 2 (fun _ => [0]) exX 3
+      ≠ corrected (fun T P => sumOver (List.range 3) fun k => ((k : Int) * P + 1) * ((k : Int) + T - P))
+          2 2 (fun _ => [0]) exX 3 := by
+  refine ⟨fun _ _ _ => rfl, by decide⟩
 
 end BemppVerif.C17
